@@ -364,6 +364,10 @@ func c13Same(items ...string) string {
 // c13Observe resolves every name from every defined package; undefined packages give "_".
 func c13Observe(suffix string, defined []bool, cur int, skipName []bool) string {
 	var items []string
+	// symbols are case insensitive: outside the (large) bounded-exhaustive families every lookup is
+	// also made with another spelling (Qxa, QXA, Vp1:Qxa …) and must agree with the lower-case one
+	spell := !strings.HasPrefix(suffix, "y")
+	mixed := func(s string) string { return strings.ToUpper(s[:1]) + s[1:] }
 	for c := 0; c < c13NPk; c++ {
 		if !defined[c] {
 			for i := 0; i < c13NNm*c13NOwn+c13NPk*c13NNm*4; i++ {
@@ -381,6 +385,9 @@ func c13Observe(suffix string, defined []bool, cur int, skipName []bool) string 
 			// variable: plain evaluation, symbol-value, boundp
 			v1 := c13Item(c13Eval(name), "unbound-variable")
 			v2 := c13Item(c13Eval("(symbol-value '"+name+")"), "unbound-variable")
+			if spell {
+				v2 = c13Same(v2, c13Item(c13Eval(strings.ToUpper(name)), "unbound-variable"))
+			}
 			b := c13Item(c13Eval("(boundp '"+name+")"), "")
 			vb := "-"
 			if b == "t" {
@@ -402,6 +409,9 @@ func c13Observe(suffix string, defined []bool, cur int, skipName []bool) string 
 			items = append(items, fb)
 			f1 := c13Item(c13Eval("("+name+" 0)"), "undefined-function")
 			f2 := c13Item(c13Eval("(funcall '"+name+" 0)"), "undefined-function")
+			if spell {
+				f2 = c13Same(f2, c13Item(c13Eval("("+mixed(name)+" 0)"), "undefined-function"))
+			}
 			items = append(items, c13Same(f1, f2))
 			// status of the name in the package: (find-symbol "n") => nil / :internal / :external / :inherited
 			st := c13Eval("(nth-value 1 (find-symbol \"" + name + "\"))")
@@ -428,10 +438,16 @@ func c13Observe(suffix string, defined []bool, cur int, skipName []bool) string 
 				}
 				qn := c13PkgName(suffix, q)
 				name := c13Names[n]
+				qv := c13Item(c13Eval(qn+":"+name), "unbound-variable")
+				qf := c13Item(c13Eval("("+qn+":"+name+" 0)"), "undefined-function")
+				if spell {
+					qv = c13Same(qv, c13Item(c13Eval(mixed(qn)+":"+strings.ToUpper(name)), "unbound-variable"))
+					qf = c13Same(qf, c13Item(c13Eval("("+qn+":"+mixed(name)+" 0)"), "undefined-function"))
+				}
 				items = append(items,
-					c13Item(c13Eval(qn+":"+name), "unbound-variable"),
+					qv,
 					c13Item(c13Eval(qn+"::"+name), "unbound-variable"),
-					c13Item(c13Eval("("+qn+":"+name+" 0)"), "undefined-function"),
+					qf,
 					c13Item(c13Eval("("+qn+"::"+name+" 0)"), "undefined-function"))
 			}
 		}
@@ -1155,7 +1171,7 @@ func c13RandomOp(r *lib.Rng, g *c13Gen) c13Op {
 		switch x := r.Intn(100); {
 		case x < 10:
 			o = c13Op{kind: "I", a: pk()}
-		case x < 12:
+		case x < 20:
 			// operations that name their package: qualified setq / defvar / defun, unintern, intern
 			switch y := r.Intn(10); {
 			case y < 3:
@@ -1172,25 +1188,25 @@ func c13RandomOp(r *lib.Rng, g *c13Gen) c13Op {
 			default:
 				o = c13Op{kind: "T", a: pk(), b: nm()}
 			}
-		case x < 24:
+		case x < 31:
 			o = c13Op{kind: "U", a: pk(), b: pk()}
-		case x < 32:
+		case x < 38:
 			o = c13Op{kind: "X", a: pk(), b: pk()}
-		case x < 44:
+		case x < 49:
 			o = c13Op{kind: "E", a: pk(), b: nm()}
-		case x < 52:
+		case x < 56:
 			o = c13Op{kind: "Z", a: pk(), b: nm()}
-		case x < 60:
-			o = c13Op{kind: "V", a: nm()}
 		case x < 63:
+			o = c13Op{kind: "V", a: nm()}
+		case x < 66:
 			o = c13Op{kind: "W", a: nm()}
-		case x < 71:
+		case x < 73:
 			o = c13Op{kind: "S", a: nm()}
-		case x < 80:
+		case x < 81:
 			o = c13Op{kind: "F", a: nm()}
-		case x < 84:
+		case x < 85:
 			o = c13Op{kind: "G", a: nm(), exp: r.Chance(60)}
-		case x < 89:
+		case x < 90:
 			o = c13Op{kind: "M", a: nm()}
 		case x < 94:
 			o = c13Op{kind: "K", a: nm()}
